@@ -12,7 +12,7 @@ import z3
 from pyvc.engine import (Ctx, PyObj, Model, Namespace, Obj, Undecided, PyRaise, ExcValue, ExcClass, Instance, Opaque)
 from pyvc.values import Sym, And, Or, Not, Implies, ite, NaN, NaNType
 from pyvc import lib
-from contracts.arrays import SArr, np_array, np_bitwise_not, reset_uids, uid, ZipArr
+from contracts.arrays import SArr, np_array, np_bitwise_not, reset_uids, uid, ZipArr, np_nan_to_num, np_isnan, np_any, np_all
 from contracts.sets import SSet, fresh_pred
 from contracts import sets as setsmod
 from contracts.c08 import genv as region_genv, mk_region, call, valid_id, snapshot_view, view, skolem_pixel, idiv, npix
@@ -73,6 +73,8 @@ def genv9(ctx, calls):
     np_ = g['np']
     np_.members.update(array=Model(np_array, 'np.array'), bitwise_not=Model(np_bitwise_not, 'np.bitwise_not'),
                        isfinite=Model(np_isfinite, 'np.isfinite'), isin=Model(np_isin, 'np.isin'),
+                       nan_to_num=Model(np_nan_to_num, 'np.nan_to_num'), isnan=Model(np_isnan, 'np.isnan'),
+                       any=Model(np_any, 'np.any'), all=Model(np_all, 'np.all'),
                        logical_and=Namespace('np.logical_and', reduce=Model(logical_and_reduce, 'np.logical_and.reduce')))
     hp = g['hp']
 
